@@ -587,7 +587,13 @@ pub fn create_proofs_line<S: ShortGroupSignatureScheme>(credentials: &IndexMap<S
         let rv = if rv.is_empty() { "-".to_string() } else { rv.iter().map(|i| i.to_string()).collect::<Vec<_>>().join(",") };
         out.push(format!("{}/{}/{}/{}", hx(key), kind, n, rv));
     }
-    Some((line, if out.is_empty() { "-".to_string() } else { out.join(";") }))
+    // the reported `disclosed_messages`: statement id → labels, both in the object's own order
+    let mut dis = vec![];
+    for (id, dm) in &q.disclosed_messages {
+        let ls: Vec<String> = dm.keys().map(|l| hx(l)).collect();
+        dis.push(format!("{}/{}", hx(id), if ls.is_empty() { "-".to_string() } else { ls.join(",") }));
+    }
+    Some((line, format!("{} D {}", if out.is_empty() { "-".to_string() } else { out.join(";") }, if dis.is_empty() { "-".to_string() } else { dis.join(";") })))
 }
 
 /// model lines for the predicate verifiers that share a response with the signature proof (commitment,
